@@ -3,14 +3,40 @@
 //@ include vx/be_bytes.rs
 use vstd::std_specs::iter::IteratorSpec;
 use vstd::std_specs::convert::*;
+//@ import-unit message
 verus! {
 
 /// ASSUMED: String::from_utf8 is total (returns Ok or Err, never panics); on success the string's bytes are the input
 #[verifier::external_type_specification]
 #[verifier::external_body]
 pub struct ExFromUtf8Error(std::string::FromUtf8Error);
+/// the bytes of a String / "is valid UTF-8" (uninterpreted: Verus has no byte-level model of str)
+pub uninterp spec fn sbytes(s: String) -> Seq<u8>;
+pub uninterp spec fn utf8_ok(v: Seq<u8>) -> bool;
 pub assume_specification [String::from_utf8] (v: Vec<u8>) -> (r: Result<String, std::string::FromUtf8Error>)
-    ensures true;
+    ensures
+        r is Ok <==> utf8_ok(v@),
+        r matches Ok(s) ==> sbytes(s) == v@;
+/// ASSUMED (std): a String's bytes are valid UTF-8, and a String is determined by its bytes
+#[verifier::external_body]
+pub proof fn axiom_string_bytes(s: String)
+    ensures utf8_ok(sbytes(s)),
+{}
+#[verifier::external_body]
+pub proof fn axiom_string_inj(a: String, b: String)
+    requires sbytes(a) == sbytes(b),
+    ensures a == b,
+{}
+pub proof fn axiom_string_inj_all()
+    ensures forall|a: String, b: String| #![trigger sbytes(a), sbytes(b)] sbytes(a) == sbytes(b) ==> a == b,
+{
+    assert forall|a: String, b: String| #![trigger sbytes(a), sbytes(b)] sbytes(a) == sbytes(b) implies a == b by { axiom_string_inj(a, b); }
+}
+/// `vec.extend(s.as_bytes())` (ASSUMED: appends exactly the string's bytes)
+#[verifier::external_body]
+pub fn vx_extend_str(v: &mut Vec<u8>, s: &String)
+    ensures final(v)@ == old(v)@ + sbytes(*s),
+{ v.extend(s.as_bytes()) }
 
 //@ item sim/elvis-core/src/protocols/ipv4/ipv4_address.rs :: struct Ipv4Address
 //@ rewrite `pub struct Ipv4Address\(\[u8; 4\]\);` => `pub struct Ipv4Address(pub [u8; 4]);` ## visibility only
@@ -28,6 +54,18 @@ impl FromSpecImpl<[u8; 4]> for Ipv4Address {
 //@ end
 //@ item sim/elvis-core/src/protocols/ipv4/ipv4_address.rs :: impl From<[u8; 4]> for Ipv4Address id=Ipv4Address.from_bytes
 //@ end
+impl FromSpecImpl<Ipv4Address> for [u8; 4] {
+    open spec fn obeys_from_spec() -> bool { true }
+    open spec fn from_spec(a: Ipv4Address) -> Self { a.0 }
+}
+//@ item sim/elvis-core/src/protocols/ipv4/ipv4_address.rs :: impl From<Ipv4Address> for [u8; 4] id=bytes.from_Ipv4Address
+//@ end
+impl Ipv4Address {
+//@ item sim/elvis-core/src/protocols/ipv4/ipv4_address.rs :: impl Ipv4Address / fn to_bytes id=Ipv4Address.to_bytes
+//@ contract
+    ensures r == self.0,
+//@ end
+}
 
 // ---------------------------------------------------------------------------
 // utility.rs: BytesExt readers over an arbitrary byte iterator
@@ -83,7 +121,7 @@ pub trait BytesExt: Iterator<Item = u8> {
     requires (*old(self)).obeys_prophetic_iter_laws(),
     ensures
         (*final(self)).obeys_prophetic_iter_laws(),
-        (*old(self)).remaining().len() >= 4 ==> r is Some && took((*old(self)).remaining(), (*final(self)).remaining(), 4),
+        (*old(self)).remaining().len() >= 4 ==> r == Some(Ipv4Address([(*old(self)).remaining()[0], (*old(self)).remaining()[1], (*old(self)).remaining()[2], (*old(self)).remaining()[3]])) && took((*old(self)).remaining(), (*final(self)).remaining(), 4),
         (*old(self)).remaining().len() < 4 ==> r is None,   //# none_when_too_short [C14]
 //@ end
 }
@@ -115,24 +153,268 @@ impl TryFrom<u8> for MessageType {
     ensures
         // every byte value is either one of the seven message types or rejected with an error: no panic
         (1 <= msg_type <= 7) ==> r is Ok,   //# accepts_types_1_to_7 [C08,C14]
+        r matches Ok(t) ==> type_code(t) == msg_type,   //# code_of_the_returned_type_is_the_byte [C08]
         !(1 <= msg_type <= 7) ==> r is Err,   //# rejects_everything_else [C14]
 //@ end
 }
 
+// ---------------------------------------------------------------------------
+// wire format (the specification the encoder and the decoder are both checked against)
+// ---------------------------------------------------------------------------
+pub open spec fn type_code(t: MessageType) -> u8 {
+    match t {
+        MessageType::Discover => 1u8, MessageType::Offer => 2u8, MessageType::Request => 3u8, MessageType::Decline => 4u8,
+        MessageType::Ack => 5u8, MessageType::Nack => 6u8, MessageType::Release => 7u8,
+    }
+}
+pub open spec fn no_nul(b: Seq<u8>) -> bool { forall|i: int| 0 <= i < b.len() ==> b[i] != 0u8 }
+/// the 30 fixed octets: op htype hlen hops | xid (4) | secs (2) | flags | ciaddr yiaddr siaddr giaddr (4 each) | chaddr (2) | type
+pub open spec fn dhcp_fixed(m: DhcpMessage) -> Seq<u8> {
+    let x = spec_to_be(m.transaction_id);
+    let s = spec_to_be16(m.seconds);
+    let h = spec_to_be16(m.client_hardware_address);
+    seq![m.op, m.htype, m.hlen, m.hops, x[0], x[1], x[2], x[3], s[0], s[1], m.flags,
+         m.client_ip.0[0], m.client_ip.0[1], m.client_ip.0[2], m.client_ip.0[3],
+         m.your_ip.0[0], m.your_ip.0[1], m.your_ip.0[2], m.your_ip.0[3],
+         m.server_ip.0[0], m.server_ip.0[1], m.server_ip.0[2], m.server_ip.0[3],
+         m.router_ip.0[0], m.router_ip.0[1], m.router_ip.0[2], m.router_ip.0[3],
+         h[0], h[1], type_code(m.msg_type)]
+}
+/// fixed part, then the two NUL-terminated names
+pub open spec fn dhcp_enc(m: DhcpMessage) -> Seq<u8> {
+    dhcp_fixed(m) + sbytes(m.server_name) + seq![0u8] + sbytes(m.boot_file) + seq![0u8]
+}
+/// 'representable': the names do not contain the terminator
+pub open spec fn dhcp_representable(m: DhcpMessage) -> bool { no_nul(sbytes(m.server_name)) && no_nul(sbytes(m.boot_file)) }
+
+
+// ---------------------------------------------------------------------------
+// proof scaffolding for the decoder contract
+// ---------------------------------------------------------------------------
+pub open spec fn is_prefix(p: Seq<u8>, s: Seq<u8>) -> bool { p.len() <= s.len() && s.subrange(0, p.len() as int) == p }
+pub open spec fn pre(x: DhcpMessage, all: Seq<u8>) -> bool { dhcp_representable(x) && is_prefix(dhcp_enc(x), all) }
+/// what `all` looks like when it starts with the encoding of x
+pub open spec fn pre_facts(x: DhcpMessage, all: Seq<u8>) -> bool {
+    let xs = sbytes(x.server_name);
+    let xb = sbytes(x.boot_file);
+    &&& no_nul(xs) && no_nul(xb)
+    &&& all.len() >= 32 + (xs.len() as int) + (xb.len() as int)
+    &&& (forall|i: int| 0 <= i < 30 ==> all[i] == #[trigger] dhcp_fixed(x)[i])
+    &&& (forall|i: int| 0 <= i < (xs.len() as int) ==> all[30 + i] == #[trigger] xs[i])
+    &&& all[30 + (xs.len() as int)] == 0u8
+    &&& (forall|i: int| 0 <= i < (xb.len() as int) ==> all[31 + (xs.len() as int) + i] == #[trigger] xb[i])
+    &&& all[31 + (xs.len() as int) + (xb.len() as int)] == 0u8
+}
+pub ghost struct Fixed {
+    pub op: u8, pub htype: u8, pub hlen: u8, pub hops: u8, pub transaction_id: u32, pub seconds: u16, pub flags: u8,
+    pub client_ip: Ipv4Address, pub your_ip: Ipv4Address, pub server_ip: Ipv4Address, pub router_ip: Ipv4Address,
+    pub client_hardware_address: u16, pub code: u8,
+}
+/// the fixed fields as the decoder reads them off the wire
+pub open spec fn fixed_ok(all: Seq<u8>, f: Fixed) -> bool {
+    &&& all.len() >= 31
+    &&& f.op == all[0] && f.htype == all[1] && f.hlen == all[2] && f.hops == all[3]
+    &&& f.transaction_id == be32([all[4], all[5], all[6], all[7]])
+    &&& f.seconds == be16([all[8], all[9]]) && f.flags == all[10]
+    &&& f.client_ip == Ipv4Address([all[11], all[12], all[13], all[14]])
+    &&& f.your_ip == Ipv4Address([all[15], all[16], all[17], all[18]])
+    &&& f.server_ip == Ipv4Address([all[19], all[20], all[21], all[22]])
+    &&& f.router_ip == Ipv4Address([all[23], all[24], all[25], all[26]])
+    &&& f.client_hardware_address == be16([all[27], all[28]])
+    &&& f.code == all[29] && 1 <= f.code <= 7
+}
+pub proof fn lemma_enc_index(m: DhcpMessage)
+    ensures
+        dhcp_fixed(m).len() == 30,
+        dhcp_enc(m).len() == 32 + (sbytes(m.server_name).len() as int) + (sbytes(m.boot_file).len() as int),
+        forall|i: int| 0 <= i < 30 ==> dhcp_enc(m)[i] == dhcp_fixed(m)[i],
+        forall|i: int| 0 <= i < (sbytes(m.server_name).len() as int) ==> dhcp_enc(m)[30 + i] == sbytes(m.server_name)[i],
+        dhcp_enc(m)[30 + (sbytes(m.server_name).len() as int)] == 0u8,
+        forall|i: int| 0 <= i < (sbytes(m.boot_file).len() as int) ==> dhcp_enc(m)[31 + (sbytes(m.server_name).len() as int) + i] == sbytes(m.boot_file)[i],
+        dhcp_enc(m)[31 + (sbytes(m.server_name).len() as int) + (sbytes(m.boot_file).len() as int)] == 0u8,
+{
+}
+pub proof fn lemma_pre_facts(x: DhcpMessage, all: Seq<u8>)
+    requires pre(x, all),
+    ensures pre_facts(x, all),
+{
+    lemma_enc_index(x);
+    let e = dhcp_enc(x);
+    assert forall|i: int| 0 <= i < (e.len() as int) implies all[i] == e[i] by {
+        assert(all.subrange(0, e.len() as int)[i] == all[i]);
+    }
+}
+pub proof fn lemma_be_inverse(b: [u8; 4])
+    ensures spec_to_be(be32(b)) == b,
+{
+    lemma_to_be_roundtrip(be32(b));
+    lemma_be32_inj(spec_to_be(be32(b)), b);
+}
+pub proof fn lemma_be16_inverse(b: [u8; 2])
+    ensures spec_to_be16(be16(b)) == b,
+{
+    let (b0, b1) = (b[0], b[1]);
+    assert(((((b0 as u16) << 8) | (b1 as u16)) >> 8) as u8 == b0 && ((((b0 as u16) << 8) | (b1 as u16)) & 0xff) as u8 == b1) by (bit_vector);
+    assert(spec_to_be16(be16(b)) =~= b);
+}
+pub proof fn lemma_type_code_inj(a: MessageType, b: MessageType)
+    requires type_code(a) == type_code(b),
+    ensures a == b,
+{
+}
+/// the decoded value re-encodes to the consumed prefix
+pub proof fn lemma_reencode(m: DhcpMessage, all: Seq<u8>, f: Fixed, sn: Seq<u8>, bf: Seq<u8>)
+    requires
+        fixed_ok(all, f),
+        f == (Fixed { op: m.op, htype: m.htype, hlen: m.hlen, hops: m.hops, transaction_id: m.transaction_id, seconds: m.seconds, flags: m.flags,
+                      client_ip: m.client_ip, your_ip: m.your_ip, server_ip: m.server_ip, router_ip: m.router_ip,
+                      client_hardware_address: m.client_hardware_address, code: type_code(m.msg_type) }),
+        sbytes(m.server_name) == sn, sbytes(m.boot_file) == bf, no_nul(sn), no_nul(bf),
+        32 + (sn.len() as int) + (bf.len() as int) <= all.len(),
+        sn == all.subrange(30, 30 + (sn.len() as int)), all[30 + (sn.len() as int)] == 0u8,
+        bf == all.subrange(31 + (sn.len() as int), 31 + (sn.len() as int) + (bf.len() as int)), all[31 + (sn.len() as int) + (bf.len() as int)] == 0u8,
+    ensures dhcp_representable(m), is_prefix(dhcp_enc(m), all),
+{
+    lemma_enc_index(m);
+    lemma_be_inverse([all[4], all[5], all[6], all[7]]);
+    lemma_be16_inverse([all[8], all[9]]);
+    lemma_be16_inverse([all[27], all[28]]);
+    let e = dhcp_enc(m);
+    let fx = dhcp_fixed(m);
+    assert forall|i: int| 0 <= i < (e.len() as int) implies all[i] == e[i] by {
+        if i < 30 {
+            assert(e[i] == fx[i]);
+            assert(fx[i] == all[i]);
+        } else if i < 30 + (sn.len() as int) {
+            assert(e[30 + (i - 30)] == sn[i - 30]);
+            assert(sn[i - 30] == all[i]);
+        } else if i == 30 + (sn.len() as int) {
+        } else if i < 31 + (sn.len() as int) + (bf.len() as int) {
+            assert(e[31 + (sn.len() as int) + (i - 31 - (sn.len() as int))] == bf[i - 31 - (sn.len() as int)]);
+            assert(bf[i - 31 - (sn.len() as int)] == all[i]);
+        } else {
+        }
+    }
+    assert(all.subrange(0, e.len() as int) =~= e);
+}
+/// two values whose fixed fields and names agree on the wire are the same value
+pub proof fn lemma_same_value(m: DhcpMessage, x: DhcpMessage, all: Seq<u8>, f: Fixed)
+    requires
+        pre_facts(x, all), fixed_ok(all, f),
+        f == (Fixed { op: m.op, htype: m.htype, hlen: m.hlen, hops: m.hops, transaction_id: m.transaction_id, seconds: m.seconds, flags: m.flags,
+                      client_ip: m.client_ip, your_ip: m.your_ip, server_ip: m.server_ip, router_ip: m.router_ip,
+                      client_hardware_address: m.client_hardware_address, code: type_code(m.msg_type) }),
+        m.server_name == x.server_name, m.boot_file == x.boot_file,
+    ensures m == x,
+{
+    let fx = dhcp_fixed(x);
+    assert(fx.len() == 30);
+    assert(all[0] == fx[0] && all[1] == fx[1] && all[2] == fx[2] && all[3] == fx[3] && all[4] == fx[4] && all[5] == fx[5] && all[6] == fx[6] && all[7] == fx[7]
+        && all[8] == fx[8] && all[9] == fx[9] && all[10] == fx[10] && all[11] == fx[11] && all[12] == fx[12] && all[13] == fx[13] && all[14] == fx[14]
+        && all[15] == fx[15] && all[16] == fx[16] && all[17] == fx[17] && all[18] == fx[18] && all[19] == fx[19] && all[20] == fx[20] && all[21] == fx[21]
+        && all[22] == fx[22] && all[23] == fx[23] && all[24] == fx[24] && all[25] == fx[25] && all[26] == fx[26] && all[27] == fx[27] && all[28] == fx[28] && all[29] == fx[29]);
+    lemma_to_be_roundtrip(x.transaction_id);
+    lemma_to_be16_roundtrip(x.seconds);
+    lemma_to_be16_roundtrip(x.client_hardware_address);
+    assert([all[4], all[5], all[6], all[7]] =~= spec_to_be(x.transaction_id));
+    assert([all[8], all[9]] =~= spec_to_be16(x.seconds));
+    assert([all[27], all[28]] =~= spec_to_be16(x.client_hardware_address));
+    assert([all[11], all[12], all[13], all[14]] =~= x.client_ip.0);
+    assert([all[15], all[16], all[17], all[18]] =~= x.your_ip.0);
+    assert([all[19], all[20], all[21], all[22]] =~= x.server_ip.0);
+    assert([all[23], all[24], all[25], all[26]] =~= x.router_ip.0);
+    lemma_type_code_inj(m.msg_type, x.msg_type);
+}
+
+
+// `bytes.remaining()` is prophetic and may not be passed to a proof function: the lemmas are used in their all-quantified form
+pub open spec fn reencode_pre(m: DhcpMessage, all: Seq<u8>, f: Fixed, sn: Seq<u8>, bf: Seq<u8>) -> bool {
+    &&& fixed_ok(all, f)
+    &&& f == (Fixed { op: m.op, htype: m.htype, hlen: m.hlen, hops: m.hops, transaction_id: m.transaction_id, seconds: m.seconds, flags: m.flags,
+                      client_ip: m.client_ip, your_ip: m.your_ip, server_ip: m.server_ip, router_ip: m.router_ip,
+                      client_hardware_address: m.client_hardware_address, code: type_code(m.msg_type) })
+    &&& sbytes(m.server_name) == sn && sbytes(m.boot_file) == bf && no_nul(sn) && no_nul(bf)
+    &&& 32 + sn.len() + bf.len() <= all.len()
+    &&& sn == all.subrange(30, 30 + sn.len() as int) && all[30 + sn.len() as int] == 0u8
+    &&& bf == all.subrange(31 + sn.len() as int, 31 + sn.len() as int + bf.len() as int) && all[31 + sn.len() as int + bf.len() as int] == 0u8
+}
+pub proof fn lemma_pre_facts_all(x: DhcpMessage)
+    ensures forall|all: Seq<u8>| #[trigger] pre(x, all) ==> pre_facts(x, all),
+{
+    assert forall|all: Seq<u8>| #[trigger] pre(x, all) implies pre_facts(x, all) by { lemma_pre_facts(x, all); }
+}
+pub proof fn lemma_reencode_all(m: DhcpMessage, f: Fixed, sn: Seq<u8>, bf: Seq<u8>)
+    ensures forall|all: Seq<u8>| #[trigger] reencode_pre(m, all, f, sn, bf) ==> dhcp_representable(m) && is_prefix(dhcp_enc(m), all),
+{
+    assert forall|all: Seq<u8>| #[trigger] reencode_pre(m, all, f, sn, bf) implies dhcp_representable(m) && is_prefix(dhcp_enc(m), all) by { lemma_reencode(m, all, f, sn, bf); }
+}
+pub open spec fn same_value_pre(m: DhcpMessage, x: DhcpMessage, all: Seq<u8>, f: Fixed) -> bool {
+    &&& pre_facts(x, all) && fixed_ok(all, f)
+    &&& f == (Fixed { op: m.op, htype: m.htype, hlen: m.hlen, hops: m.hops, transaction_id: m.transaction_id, seconds: m.seconds, flags: m.flags,
+                      client_ip: m.client_ip, your_ip: m.your_ip, server_ip: m.server_ip, router_ip: m.router_ip,
+                      client_hardware_address: m.client_hardware_address, code: type_code(m.msg_type) })
+    &&& m.server_name == x.server_name && m.boot_file == x.boot_file
+}
+pub proof fn lemma_same_value_all(m: DhcpMessage, x: DhcpMessage, f: Fixed)
+    ensures forall|all: Seq<u8>| #[trigger] same_value_pre(m, x, all, f) ==> m == x,
+{
+    assert forall|all: Seq<u8>| #[trigger] same_value_pre(m, x, all, f) implies m == x by { lemma_same_value(m, x, all, f); }
+}
+
+
+/// the round-trip clause is not vacuous: the encoding of a representable value satisfies the decoder clause's hypothesis
+pub proof fn lemma_roundtrip_hypothesis_is_satisfiable(x: DhcpMessage)
+    requires dhcp_representable(x),
+    ensures pre(x, dhcp_enc(x)),
+{
+    assert(dhcp_enc(x).subrange(0, dhcp_enc(x).len() as int) =~= dhcp_enc(x));
+}
+/// (C08) decode(encode(x)) == x, as a lemma over the two contracts: `wire` is what to_message's contract says it emits,
+/// `r` is any result allowed by from_bytes' contract on that input
+pub proof fn lemma_dhcp_roundtrip(x: DhcpMessage, wire: Seq<u8>, r: Result<DhcpMessage, ParseError>)
+    requires
+        dhcp_representable(x),
+        wire == dhcp_enc(x),                                                                       // DhcpMessage.to_message.emits_the_wire_layout
+        (dhcp_representable(x) && is_prefix(dhcp_enc(x), wire)) ==> r == Ok::<DhcpMessage, ParseError>(x),   // DhcpMessage.from_bytes.decoding_the_encoding_gives_back_the_value
+    ensures r == Ok::<DhcpMessage, ParseError>(x),
+{
+    lemma_roundtrip_hypothesis_is_satisfiable(x);
+}
+
 impl DhcpMessage {
+//@ item sim/elvis-core/src/protocols/dhcp/dhcp_parsing.rs :: impl DhcpMessage / fn to_message id=DhcpMessage.to_message
+//@ rewrite `message\.transaction_id\.to_be_bytes\(\)` => `vx_u32_to_be(message.transaction_id)` ## core::to_be_bytes routed through the contract-carrying wrapper
+//@ rewrite `message\.(seconds|client_hardware_address)\.to_be_bytes\(\)` => `vx_u16_to_be(message.\1)` ## core::to_be_bytes routed through the contract-carrying wrapper
+//@ rewrite `vec_message\.extend\((client|your|server|router)\);` => `vec_message.extend_from_slice(&\1);` ## Vec::extend(array) (IntoIterator for [u8; 4]) expressed as extend_from_slice of the same array
+//@ rewrite `vec_message\.extend\(message\.(server_name|boot_file)\.as_bytes\(\)\);` => `vx_extend_str(&mut vec_message, &message.\1);` ## Vec::extend(str::as_bytes()) routed through the assumed-contract wrapper vx_extend_str
+//@ rewrite `Message::new\(vec_message\)` => `Message::new_inner(Chunk::new(vec_message))` ## Message::new(impl Into<Chunk>) is the generic wrapper `Self::new_inner(body.into())` with `From<Vec<u8>> for Chunk = Chunk::new`; inlined
+//@ contract
+    ensures
+        // (C08) the encoder emits exactly the wire layout
+        r matches Ok(msg) && msg.wf() && msg@ == dhcp_enc(message),   //# emits_the_wire_layout [C08]
+//@ end
 //@ item sim/elvis-core/src/protocols/dhcp/dhcp_parsing.rs :: impl DhcpMessage / fn from_bytes id=DhcpMessage.from_bytes
-//@ rewrite `pub fn from_bytes\(` => `#[verifier::exec_allows_no_decreases_clause] pub fn from_bytes(` ## termination of the two name loops is NOT verified (finiteness of the caller's iterator)
+//@ rewrite `pub fn from_bytes\(mut bytes: impl Iterator<Item = u8>\)` => `#[verifier::exec_allows_no_decreases_clause] pub fn from_bytes(bytes0: impl Iterator<Item = u8>, Ghost(x): Ghost<DhcpMessage>)` ## ghost parameter x (erased at run time): the value whose encoding the input may start with, for the round-trip clause; the `mut` parameter is renamed bytes0 and rebound by `let mut bytes = bytes0;` as the first statement (so that loop invariants can name the entry value); termination of the two name loops is NOT verified (finiteness of the caller's iterator)
 //@ rewrite `\.map_err\(\|_\| ` => `.map_err(|_e| ` ## Verus needs a named closure parameter
+//@ rewrite `current = bytes\.next_u8\(\)\.ok_or\(HTS\)\?\n` => `current = bytes.next_u8().ok_or(HTS)?;\n` ## the loop body's unit-typed tail expression is made a statement so that a proof block can follow it
 //@ contract
     // (C14) for every byte string the decoder returns a value or an error: every unwrap / unreachable! / index is an obligation
-    requires bytes.obeys_prophetic_iter_laws(),
+    requires bytes0.obeys_prophetic_iter_laws(),
     ensures
-        bytes.remaining().len() < 30 ==> r is Err,   //# truncated_fixed_part_is_rejected [C14]
-        r matches Ok(m) ==> bytes.remaining().len() >= 32 && m.op == bytes.remaining()[0] && m.htype == bytes.remaining()[1]
-            && m.hlen == bytes.remaining()[2] && m.hops == bytes.remaining()[3]
-            && m.transaction_id == be32([bytes.remaining()[4], bytes.remaining()[5], bytes.remaining()[6], bytes.remaining()[7]])
-            && m.seconds == be16([bytes.remaining()[8], bytes.remaining()[9]]) && m.flags == bytes.remaining()[10]
-            && m.client_hardware_address == be16([bytes.remaining()[27], bytes.remaining()[28]]),   //# fixed_fields_at_their_offsets [C08]
+        bytes0.remaining().len() < 30 ==> r is Err,   //# truncated_fixed_part_is_rejected [C14]
+        r matches Ok(m) ==> bytes0.remaining().len() >= 32 && m.op == bytes0.remaining()[0] && m.htype == bytes0.remaining()[1]
+            && m.hlen == bytes0.remaining()[2] && m.hops == bytes0.remaining()[3]
+            && m.transaction_id == be32([bytes0.remaining()[4], bytes0.remaining()[5], bytes0.remaining()[6], bytes0.remaining()[7]])
+            && m.seconds == be16([bytes0.remaining()[8], bytes0.remaining()[9]]) && m.flags == bytes0.remaining()[10]
+            && m.client_hardware_address == be16([bytes0.remaining()[27], bytes0.remaining()[28]]),   //# fixed_fields_at_their_offsets [C08]
+        // (C08) for every byte string the decoder accepts, re-encoding the decoded value reproduces the bytes that were consumed
+        r matches Ok(m) ==> dhcp_representable(m) && is_prefix(dhcp_enc(m), bytes0.remaining()),   //# reencoding_reproduces_the_consumed_bytes [C08]
+        // (C08) for every representable value x, decoding (anything that starts with) the encoding of x gives back x
+        (dhcp_representable(x) && is_prefix(dhcp_enc(x), bytes0.remaining())) ==> r == Ok::<DhcpMessage, ParseError>(x),   //# decoding_the_encoding_gives_back_the_value [C08]
+//@ start
+        let mut bytes = bytes0;
+        let ghost all = bytes0.remaining();
+        proof { lemma_pre_facts_all(x); }
 //@ after 1 `let op = bytes.next_`
         proof { assert(bytes.remaining() =~= all.subrange(1, all.len() as int)); }
 //@ after 1 `let htype = bytes.next_`
@@ -157,17 +439,97 @@ impl DhcpMessage {
         proof { assert(bytes.remaining() =~= all.subrange(27, all.len() as int)); }
 //@ after 1 `let client_hardware_address = bytes.next_`
         proof { assert(bytes.remaining() =~= all.subrange(29, all.len() as int)); }
+//@ before 1 `let msg_type = MessageType::try_from(`
+        proof {
+            // under pre the type octet is the code of x's message type
+            assert(pre(x, all) ==> all[29] == dhcp_fixed(x)[29]);
+        }
 //@ after 1 `let msg_type = MessageType::try_from(`
         proof { assert(bytes.remaining() =~= all.subrange(30, all.len() as int)); }
+//@ after 1 `let mut current = bytes.next_u8().ok_or(HTS)?;`
+        proof {
+            assert(bytes.remaining() =~= all.subrange(31, all.len() as int));
+            assert(server_name@ =~= all.subrange(30, 30));
+        }
+        let ghost fx = Fixed { op, htype, hlen, hops, transaction_id, seconds, flags, client_ip, your_ip, server_ip, router_ip, client_hardware_address, code: type_code(msg_type) };
+        assert(fixed_ok(all, fx));
 //@ loop 1
-            invariant bytes.obeys_prophetic_iter_laws(), bytes.remaining().len() + 31 <= all.len(), all.len() >= 31,
-                op == all[0], htype == all[1], hlen == all[2], hops == all[3], transaction_id == be32([all[4], all[5], all[6], all[7]]), seconds == be16([all[8], all[9]]), flags == all[10], client_hardware_address == be16([all[27], all[28]]), all == bytes0,
+            invariant bytes.obeys_prophetic_iter_laws(), fixed_ok(all, fx), all == bytes0.remaining(),
+                fx == (Fixed { op, htype, hlen, hops, transaction_id, seconds, flags, client_ip, your_ip, server_ip, router_ip, client_hardware_address, code: type_code(msg_type) }),
+                31 + server_name@.len() <= all.len(),
+                bytes.remaining() == all.subrange(31 + server_name@.len() as int, all.len() as int),
+                server_name@ == all.subrange(30, 30 + server_name@.len() as int),
+                no_nul(server_name@),
+                current == all[30 + server_name@.len() as int],
+                pre(x, all) ==> pre_facts(x, all) && server_name@.len() <= sbytes(x.server_name).len(),
+//@ loop-start 1
+            proof {
+                // under pre the name being read has not reached x's terminator yet, so another byte is there
+                assert(pre(x, all) ==> server_name@.len() < sbytes(x.server_name).len());
+            }
+//@ loop-end 1
+            proof {
+                assert(bytes.remaining() =~= all.subrange(31 + server_name@.len() as int, all.len() as int));
+                assert(server_name@ =~= all.subrange(30, 30 + server_name@.len() as int));
+                // under pre: the byte just pushed was nonzero, but x's terminator would sit there had we passed the end of x's name
+                assert((pre(x, all) && server_name@.len() > sbytes(x.server_name).len())
+                    ==> server_name@[sbytes(x.server_name).len() as int] == all[30 + sbytes(x.server_name).len() as int]);
+            }
+//@ before 1 `let server_name = String::from_utf8(server_name)`
+        let ghost sn = server_name@;
+        proof {
+            let xs = sbytes(x.server_name);
+            assert(all[30 + sn.len() as int] == 0u8);
+            assert((pre(x, all) && sn.len() < xs.len()) ==> all[30 + sn.len() as int] == xs[sn.len() as int]);
+            assert(pre(x, all) ==> sn =~= xs);
+            axiom_string_bytes(x.server_name);
+        }
+//@ after 1 `let server_name = String::from_utf8(server_name)`
+        proof { axiom_string_inj_all(); }
+//@ after 3 `current = bytes.next_u8().ok_or(HTS)?;`
+        proof {
+            assert(bytes.remaining() =~= all.subrange(32 + sn.len() as int, all.len() as int));
+            assert(boot_file@ =~= all.subrange(31 + sn.len() as int, 31 + sn.len() as int));
+        }
 //@ loop 2
-            invariant bytes.obeys_prophetic_iter_laws(), bytes.remaining().len() + 32 <= all.len(), all.len() >= 32,
-                op == all[0], htype == all[1], hlen == all[2], hops == all[3], transaction_id == be32([all[4], all[5], all[6], all[7]]), seconds == be16([all[8], all[9]]), flags == all[10], client_hardware_address == be16([all[27], all[28]]), all == bytes0,
-//@ start
-        let ghost all = bytes.remaining();
-        let ghost bytes0 = all;
+            invariant bytes.obeys_prophetic_iter_laws(), fixed_ok(all, fx), all == bytes0.remaining(),
+                fx == (Fixed { op, htype, hlen, hops, transaction_id, seconds, flags, client_ip, your_ip, server_ip, router_ip, client_hardware_address, code: type_code(msg_type) }),
+                sbytes(server_name) == sn, 31 + sn.len() <= all.len(), sn == all.subrange(30, 30 + sn.len() as int), no_nul(sn), all[30 + sn.len() as int] == 0u8,
+                32 + sn.len() + boot_file@.len() <= all.len(),
+                bytes.remaining() == all.subrange(32 + sn.len() as int + boot_file@.len() as int, all.len() as int),
+                boot_file@ == all.subrange(31 + sn.len() as int, 31 + sn.len() as int + boot_file@.len() as int),
+                no_nul(boot_file@),
+                current == all[31 + sn.len() as int + boot_file@.len() as int],
+                pre(x, all) ==> pre_facts(x, all) && server_name == x.server_name && sn == sbytes(x.server_name) && boot_file@.len() <= sbytes(x.boot_file).len(),
+//@ loop-start 2
+            proof {
+                assert(pre(x, all) ==> boot_file@.len() < sbytes(x.boot_file).len());
+            }
+//@ loop-end 2
+            proof {
+                assert(bytes.remaining() =~= all.subrange(32 + sn.len() as int + boot_file@.len() as int, all.len() as int));
+                assert(boot_file@ =~= all.subrange(31 + sn.len() as int, 31 + sn.len() as int + boot_file@.len() as int));
+                assert((pre(x, all) && boot_file@.len() > sbytes(x.boot_file).len())
+                    ==> boot_file@[sbytes(x.boot_file).len() as int] == all[31 + sn.len() as int + sbytes(x.boot_file).len() as int]);
+            }
+//@ before 1 `let boot_file = String::from_utf8(boot_file)`
+        let ghost bf = boot_file@;
+        proof {
+            let xb = sbytes(x.boot_file);
+            assert(all[31 + sn.len() as int + bf.len() as int] == 0u8);
+            assert((pre(x, all) && bf.len() < xb.len()) ==> all[31 + sn.len() as int + bf.len() as int] == xb[bf.len() as int]);
+            assert(pre(x, all) ==> bf =~= xb);
+            axiom_string_bytes(x.boot_file);
+        }
+//@ after 1 `let boot_file = String::from_utf8(boot_file)`
+        proof {
+            axiom_string_inj_all();
+            let m = DhcpMessage { op, htype, hlen, hops, transaction_id, seconds, flags, client_ip, your_ip, server_ip, router_ip, client_hardware_address, server_name, boot_file, msg_type };
+            lemma_reencode_all(m, fx, sn, bf);
+            assert(reencode_pre(m, all, fx, sn, bf));
+            lemma_same_value_all(m, x, fx);
+            assert(pre(x, all) ==> same_value_pre(m, x, all, fx));
+        }
 //@ end
 }
 
